@@ -25,7 +25,8 @@ LEVEL_TEXT = ("Seeded random acyclic call graphs cut into 1-3 library modules pl
               "compiled by nslc.py in its own process, the roots are added in every order and linked in another process; every "
               "exported root function is run on several inputs and compared with the reference interpreter evaluating all functions "
               "as one program; each module file must be loaded at most once per link; duplicate function/global definitions across "
-              "added modules must be rejected.")
+              "added modules, and across two libraries reached over different import paths, must be rejected; several links in one process (shared "
+              "Module objects, a library stored again in between, one linker used incrementally) must behave like fresh links.")
 LEVEL_NOTE = ("Trusted: reference interpreter, the loader call log (subclass of the repository's FilesystemModuleLoader in the helper "
               "process). Library modules carry no globals and no struct types (the import metadata cannot express them: accept-or-"
               "reject territory, not generated). A module both added explicitly and reached by import may be rejected or behave "
